@@ -241,11 +241,15 @@ def build_harness(name, sources, extra_flags=(), repo_sources=(), deps=(), flags
     out = os.path.join(BUILD, "%s-%s" % (name, key))
     if os.path.exists(out):
         return out, "cached"
-    # drop stale binaries of the same harness
+    # drop stale binaries of the same harness — but only old ones: another check may be running right now against a
+    # different tree (TULZ_REPO) and still need its own build
+    now = time.time()
     for f in os.listdir(BUILD):
         if f.startswith(name + "-") and not f.endswith(".tmp"):
+            fp = os.path.join(BUILD, f)
             try:
-                os.unlink(os.path.join(BUILD, f))
+                if now - os.path.getmtime(fp) > 3600:
+                    os.unlink(fp)
             except OSError:
                 pass
     tmp = out + ".%d.tmp" % os.getpid()
